@@ -26,4 +26,11 @@ static int op_mulmid(int argc, tok_t *a, out_t *o) {
   mpn_mulmid(rp, a[0].d, a[0].n, a[1].d, a[1].n);
   out_vec(o, rp, rn); if (!dst_ok(rp, rn)) out_err(o, "oob"); dst_free(rp); return 0;
 }
-const opdef_t ops_mulmid[] = { {"mm_basecase", op_basecase}, {"mm_mulmid_n", op_mulmid_n}, {"mm_mulmid", op_mulmid}, {0, 0} };
+/* mm_toom42 [a: 2n-1] [b: n], n >= 4 -> n+2 limbs: the internal mpn_toom42_mulmid with its own scratch */
+static int op_toom42(int argc, tok_t *a, out_t *o) {
+  NEED(VV(a) && a[1].n >= 4 && a[0].n == 2 * a[1].n - 1);
+  long n = a[1].n; mp_limb_t *rp = dst_new(n + 2); long k = mpn_toom42_mulmid_itch(n); mp_limb_t *sc = dst_new(k);
+  mpn_toom42_mulmid(rp, a[0].d, a[1].d, n, sc);
+  out_vec(o, rp, n + 2); if (!dst_ok(rp, n + 2) || !dst_ok(sc, k)) out_err(o, "oob"); dst_free(rp); dst_free(sc); return 0;
+}
+const opdef_t ops_mulmid[] = { {"mm_basecase", op_basecase}, {"mm_mulmid_n", op_mulmid_n}, {"mm_mulmid", op_mulmid}, {"mm_toom42", op_toom42}, {0, 0} };
